@@ -39,12 +39,17 @@ def Ty.r (t : Ty) : Ty := t.reverse.map Ob.r           -- rigid.py:90-91
 def pyIdx (n : Nat) (i : Int) : Nat :=
   if i < 0 then (if i + n < 0 then 0 else (i + n).toNat) else min i.toNat n
 
+/-- Lower / upper bound of a Python slice (`none` = omitted). -/
+def pyLo (n : Nat) : Option Int → Nat
+  | none => 0
+  | some i => pyIdx n i
+def pyHi (n : Nat) : Option Int → Nat
+  | none => n
+  | some i => pyIdx n i
+
 /-- `xs[start:stop]` with Python semantics (step 1; `none` = omitted bound). -/
 def pySlice {α} (xs : List α) (start stop : Option Int) : List α :=
-  let n := xs.length
-  let s := match start with | none => 0 | some i => pyIdx n i
-  let e := match stop with | none => n | some i => pyIdx n i
-  (xs.drop s).take (e - s)
+  (xs.drop (pyLo xs.length start)).take (pyHi xs.length stop - pyLo xs.length start)
 
 /-- `xs[i]` with Python semantics: negative indices count from the end, out of range
     is an `IndexError`. -/
@@ -109,18 +114,19 @@ def Layer.arrow (l : Layer) : LArrow := ⟨l.dom, l.cod, [l]⟩
 
 def LArrow.thenLayer (a : LArrow) (l : Layer) : Except Err LArrow := a.then l.arrow
 
+/-- The empty-slice branch of cat.py:223-228. -/
+def LArrow.sliceEmpty (a : LArrow) (start : Option Int) : Except Err LArrow :=
+  if start.getD 0 ≥ (a.boxes.length : Int) then .ok (LArrow.id a.cod)
+  else if start.getD 0 ≤ -(a.boxes.length : Int) then .ok (LArrow.id a.dom)
+  else match pyGet? a.boxes (start.getD 0) with
+    | some l => .ok (LArrow.id l.dom)
+    | none => .error .index
+
 /-- `arrow[start:stop]`, cat.py:214-231 (step `None` or `1`). -/
 def LArrow.slice (a : LArrow) (start stop : Option Int) : Except Err LArrow :=
-  let boxes := pySlice a.boxes start stop
-  match boxes with
-  | [] =>
-    let s : Int := start.getD 0
-    if s ≥ a.boxes.length then .ok (LArrow.id a.cod)
-    else if s ≤ -(a.boxes.length : Int) then .ok (LArrow.id a.dom)
-    else match pyGet? a.boxes s with
-      | some l => .ok (LArrow.id l.dom)
-      | none => .error .index
-  | b :: bs => .ok ⟨b.dom, ((b :: bs).getLast (by simp)).cod, b :: bs⟩
+  match pySlice a.boxes start stop with
+  | [] => a.sliceEmpty start
+  | b :: bs => .ok ⟨b.dom, ((b :: bs).getLastD b).cod, b :: bs⟩
 
 /-- `arrow[::-1]`, cat.py:216-219. -/
 def LArrow.dag (a : LArrow) : LArrow := ⟨a.cod, a.dom, a.boxes.reverse.map Layer.dag⟩
